@@ -185,6 +185,21 @@ func check(prop, tier, replay string) int {
 				}
 			}
 		}
+		// otherwise the stage that produced the witness (its child name is "<stage>-<n>")
+		if b, err := os.ReadFile(replay); err == nil {
+			var w struct {
+				Child string `json:"child"`
+			}
+			if json.Unmarshal(b, &w) == nil {
+				if i := strings.LastIndex(w.Child, "-"); i > 0 {
+					for _, c := range stages {
+						if c.Name == w.Child[:i] {
+							st = c
+						}
+					}
+				}
+			}
+		}
 		st.Children = 1
 		runStage(res, st, bins[st.Race], scratch, seed, tier, replay, 0)
 	} else {
